@@ -8,8 +8,8 @@ JOBSETS = {
         'gen': {'families': {'quick': CODEC_FAMS_Q, 'thorough': CODEC_FAMS_T},
                 'bounds': {'quick': '2,2,2,2', 'thorough': '3,3,3,3'}},
         'kinds': ['codec'],
-        'cfg': {'quick': {'timeout_s': 240, 'solver_timeout_ms': 10000}, 'thorough': {'timeout_s': 1800, 'solver_timeout_ms': 60000}},
-        'wall': {'quick': 1500, 'thorough': 7200},
+        'cfg': {'quick': {'timeout_s': 600, 'solver_timeout_ms': 10000}, 'thorough': {'timeout_s': 1800, 'solver_timeout_ms': 60000}},
+        'wall': {'quick': 2400, 'thorough': 9000},
     },
 }
 
@@ -17,14 +17,14 @@ JOBSETS['bytes'] = {
     'gen': {'families': {'quick': ['bytes8'], 'thorough': ['bytes12']}, 'bounds': {'quick': '2,2,2,2', 'thorough': '2,2,2,2'}},
     'kinds': ['bytes'],
     'cfg': {'quick': {'timeout_s': 300, 'solver_timeout_ms': 10000}, 'thorough': {'timeout_s': 3000, 'solver_timeout_ms': 60000}},
-    'wall': {'quick': 1500, 'thorough': 7200},
+    'wall': {'quick': 2400, 'thorough': 9000},
 }
 
 JOBSETS['decmsg'] = {
     'gen': {'families': {'quick': ['evolve', 'required', 'default', 'nocopy'], 'thorough': ['evolve_full', 'required', 'default', 'nocopy']}, 'bounds': {'quick': '1,1,1,2', 'thorough': '2,2,1,2'}},
     'kinds': ['decmsg', 'hop'],
-    'cfg': {'quick': {'timeout_s': 300, 'solver_timeout_ms': 10000}, 'thorough': {'timeout_s': 3000, 'solver_timeout_ms': 60000}},
-    'wall': {'quick': 1500, 'thorough': 7200},
+    'cfg': {'quick': {'timeout_s': 600, 'solver_timeout_ms': 10000}, 'thorough': {'timeout_s': 3000, 'solver_timeout_ms': 60000}},
+    'wall': {'quick': 2400, 'thorough': 9000},
 }
 
 RPKG = 'github.com/cloudwego/frugal/internal/reflect'
@@ -42,14 +42,14 @@ JOBSETS['dec2'] = {
     'gen': {'families': {'quick': ['dec2'], 'thorough': ['dec2']}, 'bounds': {'quick': '1,1,1,2', 'thorough': '2,2,2,2'}},
     'kinds': ['dec2'],
     'cfg': {'quick': {'timeout_s': 300, 'solver_timeout_ms': 10000}, 'thorough': {'timeout_s': 3000, 'solver_timeout_ms': 60000}},
-    'wall': {'quick': 1500, 'thorough': 7200},
+    'wall': {'quick': 2400, 'thorough': 9000},
 }
 
 JOBSETS['hist'] = {
     'gen': {'families': {'quick': ['hist'], 'thorough': ['hist']}, 'bounds': {'quick': '1,1,1,2', 'thorough': '2,2,2,2'}},
     'kinds': ['hist', 'decmsg'],
     'cfg': {'quick': {'timeout_s': 600, 'solver_timeout_ms': 10000}, 'thorough': {'timeout_s': 3000, 'solver_timeout_ms': 60000}},
-    'wall': {'quick': 1500, 'thorough': 7200},
+    'wall': {'quick': 2400, 'thorough': 9000},
 }
 
 import re as _re, os as _os
